@@ -42,7 +42,16 @@ def _run(tier, seed, only=None):
     return core.read_cases(path)
 
 
-def judge(res, reqs, obs):
+def _only_of(line):
+    only = line.split(' ', 1)[1]
+    if line.startswith('supervisor-slowsdk '):
+        only = 'slow ' + only
+    if line.startswith('supervisor-rejcfg '):
+        only = 'rej ' + only
+    return only
+
+
+def judge(res, reqs, obs, seed=1, confirm=True):
     exp = core.oracle(reqs)
     def to_intended(r):
         v, _, rest = r.partition(' ')
@@ -66,6 +75,28 @@ def judge(res, reqs, obs):
         elif o != e:
             bad.append((len(r), r, e, i, o))
     bad.sort()
+    if confirm and 0 < len(bad) <= 12:
+        # The scripts run 48 at a time and place their control events inside 40 ms waits: on a loaded machine a script can be
+        # played wrongly (a connection dropped before the service finished setting it up, an address update that lands after
+        # the next attempt has read the address). A history that disagrees is therefore played again ALONE, twice; it is a
+        # finding only if it disagrees again (a change that breaks the property does so every time it is played).
+        confirmed = []
+        for n, r, e, i, o in bad:
+            if r.split(' ')[0] not in SUP_VERBS:
+                confirmed.append((n, r, e, i, o))
+                continue
+            again = []
+            for k in range(2):
+                r2, o2 = _run('quick', seed, only=_only_of(r))
+                again.append(o2[0] if o2 else 'no-observation')
+                if again[-1] == i and again[-1] == e:
+                    break
+            if again[-1] == i and again[-1] == e:
+                res.count('unstable-under-load')
+                res.notes.append('history [%s] first gave %s in the parallel run and the required %s when played alone' % (r, o, i))
+            else:
+                confirmed.append((n, r, e, i, again[-1]))
+        bad = confirmed
     for _, r, e, i, o in bad:
         res.count('mismatch')
         script = r.split(' ', 1)[1]
@@ -82,7 +113,7 @@ def judge(res, reqs, obs):
 
 def correspond(res, tier, seed):
     reqs, obs = _run(tier, seed)
-    exp = judge(res, reqs, obs)
+    exp = judge(res, reqs, obs, seed=seed)
     res.exhaustive = True
     n = len(reqs)
     res.samples = [dict(request=reqs[i], oracle=exp[i], observed=obs[i]) for i in (0, n // 5, n // 3, n // 2, 2 * n // 3, n - 1) if 0 <= i < n]
@@ -98,15 +129,10 @@ def replay(res, path):
         raise RuntimeError('replay has no case lines')
     line = case[0]
     if line.split(' ')[0] in SUP_VERBS:
-        only = line.split(' ', 1)[1]
-        if line.startswith('supervisor-slowsdk '):
-            only = 'slow ' + only
-        if line.startswith('supervisor-rejcfg '):
-            only = 'rej ' + only
-        reqs, obs = _run('quick', body.get('seed', 1), only=only)
+        reqs, obs = _run('quick', body.get('seed', 1), only=_only_of(line))
     else:
         reqs, obs = _run('quick', body.get('seed', 1))
         keep = [k for k, r in enumerate(reqs) if r == line]
         reqs, obs = [reqs[k] for k in keep], [obs[k] for k in keep]
-    judge(res, reqs, obs)
+    judge(res, reqs, obs, confirm=False)
     res.samples = [dict(request=r, observed=o) for r, o in zip(reqs, obs)]
